@@ -300,6 +300,21 @@ def rule_path_bases(ck: Check, repo: Repo, rid: str) -> None:
     (root-relative): a set whose members are joined with the root (or a query that is not made relative) compares
     unequal for every working directory but one, and ignored / submodule files silently become covered files."""
     r = ck.rule(rid, "VCS membership tests compare paths of the same base (query made root-relative; collected sets root-relative)")
+    # the root the strategy relativises against is the root AS GIVEN - the same spelling the walk prefixes to every path it
+    # yields.  A strategy root that went through resolve() / absolute() differs from it for a root reached through a
+    # symbolic link (or spelled relatively): no walked path is 'below' it any more, nothing is ignored, nothing is a submodule
+    base_init = repo.func("reuse.vcs.VCSStrategy.__init__")
+    ck.analysed_fn("reuse.vcs.VCSStrategy.__init__")
+    for st in ast.walk(base_init):
+        if isinstance(st, ast.Assign) and any(ast.unparse(t) == "self.root" for t in st.targets):
+            norm = [c for c in ast.walk(st.value) if isinstance(c, ast.Call) and ast.unparse(c.func).split(".")[-1] in
+                    ("resolve", "absolute", "normpath", "abspath", "realpath", "expanduser")]
+            r.instance("strategy-root", {"assignment": ast.unparse(st)[:70], "spelled_as_given": not norm}, "reuse.vcs.VCSStrategy.__init__")
+            if norm:
+                r.violation("reuse.vcs.VCSStrategy.__init__", f"the strategy's root is normalised ({ast.unparse(norm[0])[:40]}) while the walk uses the root as given",
+                            "`reuse --root <symlink-to-project> annotate -r .`: every walked path starts with the link, the strategy's root is the"
+                            " link's target - relative_from_root falls back to a lexical relpath full of `..`, no path is in the ignored set and"
+                            " git-ignored files are linted and annotated", repo.loc(st))
     REL, ROOTED, UNKNOWN, GIVEN = "root-relative", "joined-with-root", "unknown", "as-given-by-the-caller"
     n_sites = 0
     for cq, cls in sorted(repo.classes.items()):
@@ -624,6 +639,7 @@ def rule_report_identity(ck: Check, repo: Repo, rid: str) -> None:
     defined on anything coarser than the file's unique path (base name, checksum only), the reports of different covered
     files collapse and all but one file vanish from the result - silently, exit status unchanged."""
     r = ck.rule(rid, "reports of different covered files never compare equal (FileReport equality, if defined, includes the full path)")
+    ck.extra.setdefault("inventory_claimed", {})["special_methods:reuse.report.FileReport"] = ["__eq__", "__hash__"]
     cls = repo.cls("reuse.report.FileReport")
     methods = {m.name: m for m in cls.body if isinstance(m, ast.FunctionDef)}
     eq = methods.get("__eq__")
@@ -645,6 +661,17 @@ def rule_report_identity(ck: Check, repo: Repo, rid: str) -> None:
                 out |= attrs_used(methods[n.func.attr], depth + 1)
         return out
 
+    # the path must be compared ACROSS the two objects: `(self.name, …) == (self.name, …)` compares it with itself
+    other_name = eq.args.args[1].arg if len(eq.args.args) > 1 else "other"
+    for cmp_ in [n for n in ast.walk(eq) if isinstance(n, ast.Compare) and len(n.ops) == 1 and isinstance(n.ops[0], (ast.Eq, ast.NotEq))]:
+        lefts = cmp_.left.elts if isinstance(cmp_.left, ast.Tuple) else [cmp_.left]
+        rights = cmp_.comparators[0].elts if isinstance(cmp_.comparators[0], ast.Tuple) else [cmp_.comparators[0]]
+        for a, b in zip(lefts, rights):
+            ta, tb = ast.unparse(a), ast.unparse(b)
+            if ta.split(".")[0] == tb.split(".")[0] and ta.split(".")[0] in ("self", other_name) and "." in ta and ta.split(".", 1)[1].split(".")[0] in ("name", "path"):
+                r.violation("reuse.report.FileReport.__eq__", f"`{ta}` is compared with `{tb}` - the same object on both sides",
+                            "the path takes no part in the comparison: reports of different files with the same content compare equal, the set of"
+                            " file reports keeps one of them", repo.loc(cmp_))
     used = attrs_used(eq)
     narrowed = {u for u in used if u.split(".")[0] in ("path", "name") and "." in u}    # path.name, path.stem, name.split …
     whole = {u for u in used if u in ("path", "name")} - {u.split(".")[0] for u in narrowed}
